@@ -6,6 +6,7 @@
   the attachments up in the statement's SNAPSHOT, not in the transaction's staged relationships).
 -/
 import Nervus.Proofs.EngineDangling
+import Nervus.Proofs.CheckpointHist
 import Nervus.Props.C06
 namespace Nervus.Props.C14
 open Nervus Nervus.Storage
@@ -58,6 +59,51 @@ theorem C14_partial (c : Cfg) (h : List Op) (htx : txOnly h = true) (hwf : wellF
   obtain ⟨s, hrun, hreads⟩ := C06.C06_partial c h htx hwf hk hsz
   exact ⟨s, hrun, fun n hn => reads_no_dangling c hreads (spec_no_dangling h hwf) n hn⟩
 
+/-- the neighbour iterators fold the pending tombstones of the LAST run into the blocked sets before the
+    segment phase (regenerated table entry; seed C14-seed1 makes it false) -/
+theorem iterators_flush_before_segments : Generated.itersFlushBeforeSegments = true := by decide
+
+/-- **the neighbour iterator with segments, every state**: what `neighbors` / `incoming_neighbors`
+    return is the run phase followed by segment relationships none of which is tombstoned — itself, or
+    its far end node, or the start node — by ANY published run, the oldest one included (the run of the
+    first transaction after a compaction: its tombstones are pending until the segments are reached). -/
+theorem segment_edges_behind_all_tombstones (s : Engine) (n : Nat) (rel : Option Nat) :
+    (∀ es, s.neighbors n rel = some es → ∃ segEs, es = (outRuns n rel s.runs [] []).1 ++ segEs ∧
+      ∀ e ∈ segEs, e.dst ∉ allTombNodes s.runs ∧ e ∉ allTombEdgesOf s.runs ∧ n ∉ allTombNodes s.runs) ∧
+    (∀ es, s.incoming Cfg.current n rel = some es → ∃ segEs, es = (inRuns n rel s.runs [] []).1 ++ segEs ∧
+      ∀ e ∈ segEs, e.src ∉ allTombNodes s.runs ∧ e ∉ allTombEdgesOf s.runs ∧ n ∉ allTombNodes s.runs) :=
+  ⟨neighbors_segment_part s n rel, incoming_segment_part Cfg.current s n rel⟩
+
+/-- **C14 (proved part, storage half, histories WITH compaction / close / reopen)**: for EVERY
+    well-formed history of transactions, compactions, closes and reopens that triggers no C06 finding
+    and is `ckptHistSafe` — in particular: relationships compacted into a segment, an end node deleted
+    (with its relationships) in the FIRST transaction after the compaction or in any later one — every
+    relationship that `neighbors` / `incoming_neighbors` return from a live node connects two live
+    nodes, in both traversal directions.  (The compacting engine reads like the transaction-only shadow
+    engine, `hist_pair`; the shadow refines the Spec graph, which has no dangling relationship.) -/
+theorem C14_partial_ckpt (h : List Op) (hwf : wellFormed h = true) (hk : noC06Trigger h = true)
+    (hsz : histSize h ≤ labelMax) (hs : ckptHistSafe Cfg.current {} h = true) :
+    ∃ s, Storage.run Cfg.current h = .ok s ∧ ∀ n ∈ s.nodes,
+      (∃ es, s.neighbors n none = some es ∧ ∀ e ∈ es, e.src ∈ s.nodes ∧ e.dst ∈ s.nodes) ∧
+      (∃ es, s.incoming Cfg.current n none = some es ∧ ∀ e ∈ es, e.src ∈ s.nodes ∧ e.dst ∈ s.nodes) := by
+  simp only [noC06Trigger, Bool.and_eq_true, Bool.not_eq_true'] at hk
+  obtain ⟨⟨⟨k1, k2⟩, k3⟩, k4⟩ := hk
+  obtain ⟨s, u, hrun, _, hP⟩ := hist_pair h {} {} {} Pair.empty hs hwf (by simpa using hsz) k1 k2 k3 k4
+  obtain ⟨hn, _, _, hout, hinc, _⟩ := hP.eqv.reads
+  refine ⟨s, hrun, fun n hnode => ?_⟩
+  have hnu : n ∈ u.nodes := by rw [← hn]; exact hnode
+  obtain ⟨⟨eo, ho, hoall⟩, ⟨ei, hi, hiall⟩⟩ :=
+    reads_no_dangling Cfg.current (hP.sim.reads Cfg.current) (spec_no_dangling h hwf) n hnu
+  constructor
+  · rcases hout n none with ⟨_, hb⟩ | ⟨l, l', ha, hb, hp⟩
+    · rw [ho] at hb; cases hb
+    · rw [ho] at hb; cases hb
+      exact ⟨l, ha, fun e he => by rw [hn]; exact hoall e (hp.mem_iff.mp he)⟩
+  · rcases hinc n none with ⟨_, hb⟩ | ⟨l, l', ha, hb, hp⟩
+    · rw [hi] at hb; cases hb
+    · rw [hi] at hb; cases hb
+      exact ⟨l, ha, fun e he => by rw [hn]; exact hiall e (hp.mem_iff.mp he)⟩
+
 /-- the Spec side: a well-formed history never leaves a relationship with a dead end node -/
 theorem spec_has_no_dangling (h : List Op) (hwf : wellFormed h = true) :
     ∀ e ∈ (GraphSpec.run h).rels, (GraphSpec.run h).live e.src = true ∧ (GraphSpec.run h).live e.dst = true :=
@@ -93,6 +139,28 @@ example : txOnly hOk = true ∧ wellFormed hOk = true ∧ noC06Trigger hOk = tru
 example : ∃ s, Storage.run Cfg.current [ .tx [.node 10 (some A), .node 11 (some A), .edge 0 R 1] true ] = .ok s ∧
     (match execDelete Cfg.current s s.beginWrite.2 false [0] [] with | .hasRels => true | _ => false) = true :=
   ⟨_, rfl, by decide⟩
+
+/-- non-vacuity of `C14_partial_ckpt`, and the scenario of seed C14-seed1: the relationship is compacted
+    into a segment, its end node is deleted (DETACH style) by the first transaction after the compaction;
+    then the same in a later transaction, a second compaction-free delete, reopen -/
+def hCompactDelete : List Op :=
+  [ .tx [.node 10 (some A), .node 11 (some 322), .node 12 (some A), .edge 0 R 1, .edge 2 R 1, .edge 2 R 0] true,
+    .compact,
+    .tx [.tombEdge 0 R 1, .tombEdge 2 R 1, .tombNode 1] true,
+    .tx [.node 13 none] true,
+    .tx [.tombEdge 2 R 0, .tombNode 0] true,
+    .reopen ]
+
+example : ckptHistSafe Cfg.current {} hCompactDelete = true ∧ wellFormed hCompactDelete = true ∧
+    noC06Trigger hCompactDelete = true ∧ histSize hCompactDelete ≤ labelMax := by decide
+
+/-- the iterator WITHOUT the fold before the segment phase (the seeded one) returns the compacted
+    relationship from the surviving end node although the other end is deleted; the current one does not -/
+theorem C14_counterexample_unflushed_iterator :
+    ∃ s, Storage.run Cfg.current (hCompactDelete.take 3) = .ok s ∧ s.nodes = [0, 2] ∧
+      s.neighborsUnflushed 0 none = some [⟨0, 2, 1⟩] ∧ s.neighbors 0 none = some [] ∧
+      s.neighborsUnflushed 2 none = some [⟨2, 2, 0⟩, ⟨2, 2, 1⟩] ∧ s.neighbors 2 none = some [⟨2, 2, 0⟩] :=
+  ⟨_, rfl, by decide, by decide, by decide, by decide, by decide⟩
 
 /-! ### the defect: the check ignores relationships staged by the same transaction -/
 
